@@ -238,6 +238,16 @@ def check_single(case):
             "return_indices-changes-samples",
             "same seed, return_indices False/True give different samples",
             case)
+    # supplied weights are used as they are, also when the caller passes the
+    # number of live points along with them (documented precedence)
+    np.random.seed(seed)
+    res3 = _call(case, samples, log_w=lw.copy(), nlive=max(1, N // 2),
+                 method=method, n=n, return_indices=False)
+    if np.asarray(res3).tobytes() != np.asarray(res).tobytes():
+        raise Violation(
+            "supplied-weights-not-used-when-nlive-is-given",
+            "same seed, log_w alone vs log_w together with nlive give "
+            "different samples", case)
     if samples.tobytes() != before:
         raise Violation("nested-samples-modified", "input array changed",
                         case)
